@@ -34,7 +34,7 @@ EXPLANATION = (
 )
 ASSUMPTIONS = ["csv.writer writes rows in list order"]
 
-OUT = "ghedesigner.output"
+OUT = OUTM = "ghedesigner.output"
 OM = f"{OUT}.OutputManager"
 NONLEAP = [calendar.monthrange(2019, m)[1] for m in range(1, 13)]
 
@@ -200,6 +200,27 @@ def check(prog: Program, tier: str) -> Result:
     run(e3, [s_ for s_ in R["pre"] if not (isinstance(s_, ast.Assign) and isinstance(s_.targets[0], ast.Name) and s_.targets[0].id in (R["DIY"], R["HIY"], R["MON"]))], s3)
     s3.env[R["MON"]] = Rat.atom("M")
     run(e3, R["post"], s3)
+    # month search of hours_to_month: first month whose cumulative hours reach the hours left in the current year
+    from ..paths import cmp_is, negate
+
+    s4 = State()
+    s4.env[hours_p] = Rat.atom("hours")
+    s4.env[R["HIY"]] = Rat.atom("hours_in_year")
+    s4.env[R["DIY"]] = Rat.atom("days_in_year")
+    run(e3, [s_ for s_ in R["pre"] if not (isinstance(s_, ast.Assign) and isinstance(s_.targets[0], ast.Name) and s_.targets[0].id in (R["DIY"], R["HIY"], R["MON"]))], s4)
+    s4.env[R["IDX"]] = Rat.atom("idx")
+    run(e3, [s_ for s_ in R["loop"].body if s_ is not R["brk"]], s4)
+    c4 = e3.cond(R["brk"].test, s4)
+    if not R["pol"]:
+        c4 = negate(c4)
+    Y4 = sym.call("sum", [Rat.atom("hours_in_year")])
+    left4 = Rat.atom("hours") - sym.call("floor", [Rat.atom("hours") / Y4]) * Y4
+    cum4 = sym.dot(sym.elem_atom("hours_in_year", 0), Rat.atom("idx") + Rat.const(1))
+    oks = cmp_is(c4, cum4 - left4, "0+")
+    res.ob("R19.1", "hours_to_month: month = first one whose cumulative hours reach the hours left in the current year (hours - whole years)", oks, prog.loc(fi, R["brk"]))
+    if not oks:
+        res.violation("R19.1", "hours-to-month|month-search", prog.loc(fi, R["brk"]), q,
+                      f"the month search of hours_to_month stops on '{c4.key()[:140]}' instead of 'cumulative hours of months 0..idx >= hours - floor(hours / hours per year) * hours per year': beyond the first year no month matches")
     rets = [r for r in ast.walk(fi.node) if isinstance(r, ast.Return) and r.value is not None]
     if len(rets) != 1:
         raise AnalysisError(f"{q}: single return expected")
@@ -308,6 +329,18 @@ def check(prog: Program, tier: str) -> Result:
 
 
 VARIANTS = [
+    Variant("hours_to_month: month search compares against the total hours (seeded C19)", "break",
+            [(OUTM, """            hours_left = hours - n_years * sum(hours_in_year)
+            if sum(hours_in_year[0 : idx + 1]) >= hours_left:""", """            if sum(hours_in_year[0 : idx + 1]) >= hours:""")], "R19.1"),
+    Variant("hours_to_month: hours_left hoisted out of the loop", "benign",
+            [(OUTM, """        month_in_year = 0
+        for idx, _ in enumerate(days_in_year):
+            hours_left = hours - n_years * sum(hours_in_year)
+            if sum(hours_in_year[0 : idx + 1]) >= hours_left:""", """        hours_left = hours - n_years * sum(hours_in_year)
+        month_in_year = 0
+        for idx, _ in enumerate(days_in_year):
+            if sum(hours_in_year[0 : idx + 1]) >= hours_left:"""),
+             (OUTM, "        h_l = hours - n_years * sum(hours_in_year) - sum(hours_in_year[0:month_in_year])", "        h_l = hours_left - sum(hours_in_year[0:month_in_year])")]),
     Variant("bore-field columns swapped", "break", [(OUT, "            csv_array.append([bore_location[0], bore_location[1]])", "            csv_array.append([bore_location[1], bore_location[0]])")], "R19.3"),
     Variant("last load dropped from the table", "break", [(OUT, "        hourly_loadings = design.ghe.hourly_extraction_ground_loads\n", "        hourly_loadings = design.ghe.hourly_extraction_ground_loads[:-1]\n")], "R19.2"),
     Variant("g-function table taken at the maximum height", "break",
